@@ -62,7 +62,7 @@ NW, NV, NM = 2, 2, 2
 class Problem:
     """A tiny survey/grid with two model versions and reference quantities.
 
-    layout % 2: 0 = 2 sources x 1 frequency, 1 = 1 source x 2 frequencies;
+    layout % 2: 0 = 2 sources x 1 frequency, 1 = 2 sources x 2 frequencies;
     layout // 2: 0 = gridding='same' (computational grid IS the model grid),
     1 = gridding='input' with an 8x4x4 computational grid that differs from the
     4x4x4 model grid (the model is interpolated for every solve)."""
@@ -85,8 +85,8 @@ class Problem:
         if layout % 2 == 0:
             self.src = [(-30, 10, 5, 20, 10), (20, -15, 10, 70, -20)]
             self.freqs = [1.0]
-        else:
-            self.src = [(-30, 10, 5, 20, 10)]
+        else:                                  # 2 sources x 2 frequencies = 4 slots
+            self.src = [(-30, 10, 5, 20, 10), (20, -15, 10, 70, -20)]
             self.freqs = [1.0, 2.0]
         self.src_names = ['South', 'North'][:len(self.src)]
         self.rec_names = ['Rz-mag', 'Rb', 'Ra']
@@ -659,7 +659,53 @@ SUSPECTS = [
      (2, 'gradient'), (1, 'setmodel', 1, 'computed', 'replace'), (1, 'misfit')],
     [(0, 'get_efield', 0), (0, 'export', 'npz', 'computed'), (1, 'misfit'), (1, 'export', 'dict', 'plain'),
      (2, 'jtvec', 1)],
+    # "results kept, fields dropped, then ONE source-frequency pair recomputed" -- with and without a
+    # cached misfit, through clean('keepresults'), copy('results') and to_file(what='results')
+    [(0, 'compute'), (0, 'clean', 'keepresults'), (0, 'get_efield', 1), (0, 'misfit'), (0, 'gradient')],
+    [(0, 'misfit'), (0, 'export', 'copy', 'results'), (1, 'get_hfield', 0), (1, 'gradient'),
+     (0, 'clean', 'keepresults'), (0, 'get_efield', 0), (0, 'jvec', 0)],
+    [(0, 'compute'), (0, 'export', 'h5', 'results'), (1, 'gradient'), (0, 'export', 'npz', 'results'),
+     (2, 'get_efield', 1), (2, 'misfit')],
 ]
+
+
+def check_synthetic(w, prob, intended, have, op, ob):
+    """Reported synthetic data, BY LABEL, after an operation (own bookkeeping, no Coq):
+    every present slot is the response of the simulation's intended model; a slot that was
+    present stays present unless this simulation was cleaned ('computed'/'all') or its model
+    updated; after compute/misfit/gradient/jvec/jtvec all slots are present, as in a fresh
+    simulation.  Updates have[k] (set of present slots); returns a description or None."""
+    names = field_names(prob.n)
+    k, name = op[0], op[1]
+    new_index = None
+    if name == 'export' and ob[0] == 3:
+        have.append(set())
+        new_index = len(w.sims) - 1
+    what = op[2] if name == 'clean' else (op[3] if name == 'setmodel' else None)
+    for k2, sm in enumerate(w.sims):
+        e = w.enc_sim(sm)
+        present = set()
+        for i in range(prob.n):
+            j0 = names.index(f'synthetic[{i}].k')
+            t = e[j0:j0 + 3]
+            if t == [1, 0, 0]:
+                continue
+            if t != [2, intended[k2], i]:
+                return (f"simulation {k2}: data.synthetic at {prob.slot_keys[i]} is not the response of its "
+                        f"model (version {intended[k2]}) for that source and frequency (tag {t})")
+            present.add(i)
+        reset = k2 == k and what in ('computed', 'all')
+        lost = sorted(have[k2] - present) if k2 != new_index else []
+        if lost and not reset:
+            return (f"simulation {k2}: data.synthetic of {[prob.slot_keys[i] for i in lost]} was overwritten "
+                    f"with NaN by {op_text(op)}")
+        if (k2 == k and ob[0] != 4 and name in ('compute', 'misfit', 'gradient', 'jvec', 'jtvec')
+                and len(present) < prob.n):
+            miss = [prob.slot_keys[i] for i in range(prob.n) if i not in present]
+            return (f"simulation {k2}: after {op_text(op)} data.synthetic is NaN for {miss} "
+                    "(a fresh simulation has the responses of every source and frequency)")
+        have[k2] = present
+    return None
 
 
 def property_fails(prob, file_mode, ops):
@@ -668,6 +714,9 @@ def property_fails(prob, file_mode, ops):
     its current model.  Returns None or a description."""
     w = World(prob, file_mode)
     intended = [0]          # model version each simulation is supposed to have (own bookkeeping)
+    have = [set()]          # slots whose synthetic data each simulation reports (own bookkeeping)
+    SYN_REQ = ('the synthetic data a simulation reports are, label by label, those of a fresh simulation; '
+               'computing one source-frequency pair leaves the data of all other pairs alone')
     try:
         for j, op in enumerate(ops):
             ob = w.apply(op)
@@ -686,6 +735,10 @@ def property_fails(prob, file_mode, ops):
                     return {'step': j, 'op': op_text(op),
                             'observed': f'model of simulation {k2} was changed by an operation on simulation {op[0]}',
                             'required': 'copies and reloaded simulations are independent of their original'}
+            if op[0] < len(intended):
+                bad = check_synthetic(w, prob, intended, have, op, ob)
+                if bad:
+                    return {'step': j, 'op': op_text(op), 'observed': bad, 'required': SYN_REQ}
             if ob[0] == 4:
                 return {'step': j, 'op': op_text(op), 'observed': 'raises ' + w.last_exc,
                         'required': 'no exception (a fresh simulation performs this operation)'}
@@ -713,6 +766,9 @@ def property_fails(prob, file_mode, ops):
             for q in ('misfit', 'gradient', 'compute'):
                 ob = w.apply((k, q))
                 m = w.enc_sim(w.sims[k])[0]
+                bad = check_synthetic(w, prob, intended, have, (k, q), ob)
+                if bad:
+                    return {'step': len(ops), 'op': f'query {q}@{k}', 'observed': bad, 'required': SYN_REQ}
                 bad = bad_tolerance(ob, intended[k])
                 if bad:
                     return {'step': len(ops), 'op': f'query {q}@{k}', 'observed': bad,
@@ -742,9 +798,14 @@ def property_fails(prob, file_mode, ops):
         # of a fresh simulation (catches anything stale or mislabelled that the caches masked)
         for k in range(len(w.sims)):
             ob = w.apply((k, 'clean', 'computed'))
+            check_synthetic(w, prob, intended, have, (k, 'clean', 'computed'), ob)
             for q, code in (('misfit', 3), ('gradient', 4)):
                 ob = w.apply((k, q))
                 m = intended[k]
+                bad = check_synthetic(w, prob, intended, have, (k, q), ob)
+                if bad:
+                    return {'step': len(ops), 'op': f'query clean(computed); {q}@{k}', 'observed': bad,
+                            'required': SYN_REQ}
                 if ob[0] == 4:
                     return {'step': len(ops), 'op': f'query clean(computed); {q}@{k}',
                             'observed': 'raises ' + w.last_exc, 'required': 'value of a fresh simulation'}
@@ -924,7 +985,7 @@ def check_cases(cases, quirks, prefix='c12_h'):
 
 def correspondence(ctx):
     rng = ctx.rng
-    nh = 700 if ctx.thorough else 130
+    nh = 600 if ctx.thorough else 112
     maxlen = 12 if ctx.thorough else 8
     quirks = active_quirks()
     combos = COMBOS
